@@ -302,6 +302,22 @@ func c20BlockchainMuts() []c20Mut {
 			res.(*ctypes.ResultBlockchainInfo).LastHeight++
 			return true
 		}},
+		// a page that reaches the chain's first block: the first header names no predecessor (zero LastBlockID); a fabricated meta with
+		// a zero block id and a header that hashes to nothing (no validators hash) "links" to it hash-wise
+		c20Mut{Name: "BlockMetas:append-fabricated-behind-first-block", Class: c20Committed, F: func(res interface{}, _ *c20Chain) bool {
+			r := res.(*ctypes.ResultBlockchainInfo)
+			if len(r.BlockMetas) == 0 {
+				return false
+			}
+			last := r.BlockMetas[len(r.BlockMetas)-1]
+			if !last.Header.LastBlockID.IsZero() {
+				return false
+			}
+			fab := &types.BlockMeta{BlockSize: 1, NumTxs: 1000000, Header: types.Header{Version: last.Header.Version, ChainID: last.Header.ChainID,
+				Height: last.Header.Height + 1, Time: last.Header.Time, AppHash: []byte("fabricated-app-hash")}}
+			r.BlockMetas = append(r.BlockMetas, fab)
+			return true
+		}},
 		c20Mut{Name: "BlockMetas:drop-first", Class: c20Other, F: func(res interface{}, _ *c20Chain) bool {
 			r := res.(*ctypes.ResultBlockchainInfo)
 			if len(r.BlockMetas) < 2 {
